@@ -29,7 +29,7 @@
    what is proved about it. *)
 From Coq Require Import ZArith List Bool Arith.
 From PyecoreV Require Import Lib.PyBase Lib.PyList Model.Kernel Proofs.C01Full Proofs.C02Proofs Proofs.WFBase Proofs.SymLink
-  Proofs.OwnAll Proofs.WFCorollaries.
+  Proofs.OwnAll Proofs.WFCorollaries Model.Premises Proofs.PremisesProofs.
 Import ListNotations.
 
 Theorem C02_failed_operation_changes_nothing_partial :
@@ -118,3 +118,11 @@ Theorem C02_invariant_step :
   forall m, wf_mm m -> forall s o, WF m s -> op_many m o -> WF m (next m s o).
 Proof. exact WF_step. Qed.
 Print Assumptions C02_invariant_step.
+
+(* on the boolean premises the harness evaluates for every case it runs (extracted `run_premises`) *)
+Theorem C02_invariant_whenever_the_evaluated_premises_hold :
+  forall m ops,
+    wf_mmb m = true -> ref_defaults_noneb m = true -> forallb (op_manyb m) ops = true ->
+    WF m (reach m ops).
+Proof. exact checked_WF. Qed.
+Print Assumptions C02_invariant_whenever_the_evaluated_premises_hold.
